@@ -263,6 +263,51 @@ fn replay(args: &Args) {
             }
             Ok(None)
         });
+        // ---- (3) the same arrivals issued CONCURRENTLY (fresh node ids): the mailbox decides the
+        // order; with distinct timestamps the final stored record does not depend on it ----------
+        let distinct_ts = {
+            // every two different records of a node carry different timestamps (repeats are fine)
+            let mut ts = std::collections::BTreeSet::new();
+            let mut ids = std::collections::BTreeSet::new();
+            steps.iter().all(|s| {
+                let fresh_id = ids.insert(s["rec"]["id"].to_string());
+                !fresh_id || ts.insert((s["rec"]["node"].to_string(), s["rec"]["ts"].to_string()))
+            })
+        };
+        if only_arrivals && distinct_ts && res == Ok(None) && !steps.is_empty() {
+            let mut ckeys = Keys::new(args.seed.wrapping_mul(1_000_003).wrapping_add(bi as u64) ^ 0xC0C0_C0C0);
+            let concrete: Vec<(String, NodeId, TransportInfo)> = steps
+                .iter()
+                .map(|s| {
+                    let (id, info) = concretise(&s["rec"], &mut ckeys, encoding);
+                    (s["rec"]["id"].as_str().unwrap().to_string(), id, info)
+                })
+                .collect();
+            let known: Vec<(String, TransportInfo)> = concrete.iter().map(|(i, _, t)| (i.clone(), t.clone())).collect();
+            let finals = steps.last().unwrap()["stored"].clone();
+            let r: Result<Option<String>, String> = rt.block_on(async {
+                let calls = concrete.iter().map(|(_, id, info)| ab.insert_transport_info(*id, info.clone()));
+                let _ = futures_util::future::join_all(calls).await;
+                for n in &node_names {
+                    let ni = ab.node_info(ckeys.id(n)).await.map_err(|e| format!("node_info failed: {e}"))?;
+                    let got = stored_id(ni.as_ref().and_then(|x| x.transports.as_ref()), &known);
+                    let want = finals[n].as_str().unwrap();
+                    if got != want {
+                        return Ok(Some(format!("after {} concurrent insert_transport_info calls the book holds {got} for {n}, the newest authentic record is {want}", concrete.len())));
+                    }
+                }
+                Ok(None)
+            });
+            out.count("ran_concurrently");
+            match r {
+                Ok(None) => {}
+                Ok(Some(detail)) => out.violation("C27", "actor:concurrent-arrivals-not-newest", detail, b.clone()),
+                Err(e) => {
+                    eprintln!("address book unusable: {e}");
+                    std::process::exit(2);
+                }
+            }
+        }
         match res {
             Ok(None) => {}
             Ok(Some((sig, detail))) => out.violation("C27", &format!("actor:{sig}"), detail, b.clone()),
@@ -277,12 +322,11 @@ fn replay(args: &Args) {
 }
 
 /// Stable failure class from the step the implementation disagreed on.
-fn classify(step: &Value, detail: &str) -> String {
+fn classify(step: &Value, _detail: &str) -> String {
     let forged = step["rec"]["forge"] != "none";
-    if forged && !detail.contains("spec says error") || forged && detail.contains("holds") {
+    if forged {
+        // a forged record must be answered with an error and must never be held
         "forged-record-accepted".into()
-    } else if forged {
-        "forged-record-verdict".into()
     } else if step["reply"] == "older" {
         "older-record-replaced-newer".into()
     } else if step["reply"] == "newer" {
